@@ -32,7 +32,7 @@ type c20SOp struct {
 	IDs []int  `json:"ids,omitempty"` // nodes: node ids (first-visit pre-order of the source trie)
 	Max int    `json:"max,omitempty"` // req: at most this many of the requested nodes (0 = all) ...
 	Sel int    `json:"sel,omitempty"` // ... starting at this offset (mod count) of the sorted request
-	Bad string `json:"bad,omitempty"` // bad: foreign | inline | trunc | flip | trail
+	Bad string `json:"bad,omitempty"` // bad: foreign | inline | trunc | flip | trail | empty
 	ID  int    `json:"id,omitempty"`  // bad: node the data is derived from
 	X   int    `json:"x,omitempty"`   // bad: position / which child
 	I   uint32 `json:"i,omitempty"`   // blk: block index
@@ -247,6 +247,11 @@ func (c *c20Sync) bad(op c20SOp) {
 		r := io.NewBinReaderFromBuf(b)
 		no.DecodeBinary(r)
 		term := "SBad"
+		if r.Err == nil && no.Type() == mpt.EmptyT {
+			// decodes to an EmptyNode: not a node anybody can have requested; must be refused like undecodable bytes
+			c.addNodes([][]byte{b}, []string{"SBad"}, true, "empty node")
+			return
+		}
 		if r.Err == nil {
 			h := hash.DoubleSha256(no.Bytes())
 			if k, ok := c.idOf[h]; ok {
@@ -258,8 +263,13 @@ func (c *c20Sync) bad(op c20SOp) {
 				return
 			}
 			term = fmt.Sprintf("SForeign %d", n+1+op.X%7)
+			if !bytes.HasPrefix(b, no.Bytes()) {
+				term = fmt.Sprintf("SForeignNC %d", n+1+op.X%7) // decodes, but not to what a canonical encoder writes
+			}
 		}
 		c.addNodes([][]byte{b}, []string{term}, true, "flipped byte")
+	case "empty":
+		c.addNodes([][]byte{{byte(mpt.EmptyT)}}, []string{"SBad"}, true, "empty node")
 	case "foreign":
 		// a well-formed leaf nobody asked for
 		w := io.NewBufBinWriter()
@@ -584,7 +594,7 @@ func c20GenSync(r *rng, src c20SrcParams, thorough bool) c20SInput {
 		case x < 74:
 			add(c20SOp{Op: "restart"})
 		case x < 96:
-			add(c20SOp{Op: "bad", Bad: pick(r, []string{"foreign", "inline", "inline", "trunc", "flip", "flip", "trail"}), ID: r.intn(400), X: r.intn(1000)})
+			add(c20SOp{Op: "bad", Bad: pick(r, []string{"foreign", "inline", "inline", "trunc", "flip", "flip", "trail", "empty"}), ID: r.intn(400), X: r.intn(1000)})
 		default:
 			add(c20SOp{Op: "blk", I: uint32(1 + r.intn(src.Height))})
 		}
@@ -631,7 +641,7 @@ func init() { register("c20sync", runC20Sync) }
 
 const c20SyncRule = "sync: source chains built with neotest (storage contract with clustered keys and repeated values, puts and deletes), " +
 	"every admissible sync point, headers in one or several batches, MPT nodes by request subsets / arbitrary ids / duplicates, wrong data " +
-	"(foreign leaf, node with an inline child, truncated, bit-flipped, trailing byte), restarts (Close + reopen on LevelDB + Init) in every " +
+	"(foreign leaf, node with an inline child, truncated, bit-flipped, trailing byte, EmptyNode), restarts (Close + reopen on LevelDB + Init) in every " +
 	"stage, blocks in and out of order; a case is non-trivial when at least three operations reached the MPT stage"
 
 func runC20Sync(args []string) error {
